@@ -1504,3 +1504,24 @@ package gojq
 //@ func TypeOf(v any) (s string)
 //@   property C08
 //@   requires djson(v)
+
+// C03: ltrimstr / rtrimstr / startswith / endswith on strings; any other operand kind is a (catchable)
+// type error, never a wrong value.
+//@ pred hasPre(s, t string) = len(s) >= len(t) && s[:len(t)] == t
+//@ pred hasSuf(s, t string) = len(s) >= len(t) && s[len(s)-len(t):] == t
+//@ func funcLtrimstr(v, x any) (r any)
+//@   property C03
+//@   ensures (v is string) && (x is string) ==> (r is string) && r.(string) == (hasPre(v.(string), x.(string)) ? v.(string)[len(x.(string)):] : v.(string))
+//@   ensures !((v is string) && (x is string)) ==> (r is *func1TypeError)
+//@ func funcRtrimstr(v, x any) (r any)
+//@   property C03
+//@   ensures (v is string) && (x is string) ==> (r is string) && r.(string) == (hasSuf(v.(string), x.(string)) ? v.(string)[:len(v.(string))-len(x.(string))] : v.(string))
+//@   ensures !((v is string) && (x is string)) ==> (r is *func1TypeError)
+//@ func funcEndsWith(v, x any) (r any)
+//@   property C03
+//@   ensures (v is string) && (x is string) ==> (r is bool) && r.(bool) == hasSuf(v.(string), x.(string))
+//@   ensures !((v is string) && (x is string)) ==> (r is *func1TypeError)
+//@ func funcStartsWith(v, x any) (r any)
+//@   property C03
+//@   ensures (v is string) && (x is string) ==> (r is bool) && r.(bool) == (len(v.(string)) >= len(x.(string)) && forall k :: {v.(string)[k]} 0 <= k && k < len(x.(string)) ==> v.(string)[k] == x.(string)[k])
+//@   ensures !((v is string) && (x is string)) ==> (r is *func1TypeError)
